@@ -15,9 +15,10 @@ RULE = ("C14's frames without exact duplicates among the candidates, plus exactl
         "real select is run on the original and on: one quantitative feature negated, all quantitative features rescaled by a "
         "positive factor, categories renamed, rows permuted, columns and feature lists permuted; returned lists (order included) "
         "are compared, and the perfect feature must be among the returned features of its type. Blocks whose recomputed "
-        "measures tie (rel 1e-9) are compared as sets. Non-trivial: base select returns >= 2 features; distinct by data+config.")
+        "measures tie (rel 1e-9) are skipped and counted. Non-trivial: base select returns >= 2 features; distinct by data+config.")
 ASSUMPTIONS = [
-    "when two candidates' recomputed measures tie within 1e-9 the returned order is an unspecified tie-break: such blocks are compared as sets and counted",
+    "when two candidates' recomputed measures tie within 1e-9 (frequent with a binary target: Kruskal-Wallis H only depends on a rank sum) the order and the n_best cut are an unspecified tie-break: such blocks are not compared, and counted",
+    "a block holding a pair of candidates whose mutual association is within 1e-9 of thresh_corr is not compared (the filter's strict comparison is then decided by float rounding)",
     "the perfect feature is planted alone (no other copy / monotone transform of the target among the candidates) and n_best >= 1",
 ]
 _S = "AutoCarver/selectors/"
@@ -91,6 +92,7 @@ def run_case(tier, seed, i):
     viols = []
     # recomputed measures -> tie detection per block
     ties = {}
+    on_threshold = {}
     for dtype, feats in (("float", quant), ("str", qual)):
         ms = []
         for f in feats:
@@ -102,6 +104,12 @@ def run_case(tier, seed, i):
         ties[dtype] = any(abs(a - b) <= 1e-9 * max(1.0, abs(a)) for a, b in zip(ms[:-1], ms[1:]))
         if ties[dtype]:
             counters["tie_ambiguous_blocks"] += 1
+        # a pair of candidates whose association sits on thresh_corr (e.g. Spearman rho exactly 0.9 with n=80) is decided by
+        # the last bit of a float: the block is then not compared at all
+        fname = "spearman_filter" if dtype == "float" else "tschuprowt_filter"
+        on_threshold[dtype] = tc < 1 and any(abs(c14.pair_assoc(fname, X, a, b) - tc) <= 1e-9 for k, a in enumerate(feats) for b in feats[k + 1:])
+        if on_threshold[dtype]:
+            counters["threshold_ambiguous_blocks"] = counters.get("threshold_ambiguous_blocks", 0) + 1
     if perfect is not None:
         f, dtype, form = perfect
         if f not in base:
@@ -116,8 +124,10 @@ def run_case(tier, seed, i):
         tags.append(name)
         o = [rename.get(f, f) for f in other] if rename else list(other)
         for dtype, feats in (("float", quant), ("str", qual)):
+            if on_threshold[dtype] or ties[dtype]:
+                continue  # tie at the n_best cut / on the threshold: any tie-break is acceptable
             a, b = block(base, feats), block(o, feats)
-            same = (sorted(a) == sorted(b)) if ties[dtype] else (a == b)
+            same = a == b
             if not same:
                 viols.append({"kind": "selection_changed_by_reencoding", "transformation": name, "dtype": dtype, "selector": selector_kind,
                               "msg": f"[{name}] {dtype} features returned {b} instead of {a}"})
